@@ -258,7 +258,7 @@ def rejecting_environment(ctx, r, quick):
     old_home = os.environ.get('GNUPGHOME')
     with tempfile.TemporaryDirectory(prefix='gv-c04r-', dir=os.environ.get('GV_SCRATCH')) as d:
         os.makedirs(os.path.join(d, 'home'), mode=0o700)
-        for i in range(24 if quick else 240):
+        for i in range(40 if quick else 400):
             tree = os.path.join(d, 't%d' % i)
             os.makedirs(tree)
             open(os.path.join(tree, 'a'), 'w').write('a\n')
@@ -267,7 +267,20 @@ def rejecting_environment(ctx, r, quick):
             t = seq_text([BEGIN, 'Hash: SHA256', ''] + body + [SIGBEGIN, '', 'iQEzBAEBCgAdFiEE', '=BR6/', END], True)
             open(os.path.join(tree, 'Manifest'), 'w').write(t)
             how = r.choice(['loader', 'loader-update', 'loader-create', 'loader-create', 'cli-verify', 'cli-update', 'cli-create', 'cli-create',
-                            'sub-loader-update', 'sub-cli-update', 'sub-cli-create'])
+                            'sub-loader-update', 'sub-cli-update', 'sub-cli-create',
+                            'reg-loader-update', 'reg-cli-update', 'reg-cli-create', 'reg-cli-verify'])
+            if how.startswith('reg-'):
+                # ... and for a signed Manifest in a sub-directory that the (unsigned) top-level Manifest references with the right size and
+                # digest: the operations that load sub-Manifests without comparing them to their MANIFEST entry (update, create) still
+                # hand their signatures to the OpenPGP environment
+                import hashlib
+                os.makedirs(os.path.join(tree, 'sub'))
+                open(os.path.join(tree, 'sub', 'b'), 'w').write('b\n')
+                st = t.replace('IGNORE secret', 'IGNORE b').replace('DATA a 2', 'DATA zz 2')
+                open(os.path.join(tree, 'sub', 'Manifest'), 'w').write(st)
+                open(os.path.join(tree, 'Manifest'), 'w').write('IGNORE secret\nDATA a 2 SHA1 3f786850e387550fdab836ed7e6dc881de23001b\nMANIFEST sub/Manifest %d SHA1 %s\n'
+                                                               % (len(st.encode()), hashlib.sha1(st.encode()).hexdigest()))
+                how = how[4:] + '+referenced-signed-sub-Manifest'
             if how.startswith('sub-'):
                 # ... the same for a signed Manifest in a sub-directory that nothing references yet: update / create find it and must not adopt it
                 os.makedirs(os.path.join(tree, 'sub'))
@@ -288,6 +301,8 @@ def rejecting_environment(ctx, r, quick):
                             m.update_entries_for_directory('')
                             m.save_manifests()
                         ok = f'constructed, {len(m.loaded_manifests["Manifest"].entries)} entries handed out, verify_file called {Rejecting.calls} times'
+                        if 'referenced' in how:
+                            ok += '; sub/Manifest now: %r' % open(os.path.join(tree, 'sub', 'Manifest')).read()[:120]
                     except ge.GematoException:
                         ok = None
                 else:
@@ -304,7 +319,7 @@ def rejecting_environment(ctx, r, quick):
             if ok is None:
                 refused += 1
             else:
-                ctx.violation('spec', f'a signed top-level Manifest whose signature is rejected was used by {how}: {ok}', {'text': t, 'how': how})
+                ctx.violation('spec', f'a signed {"sub-" if "+" in how else "top-level "}Manifest whose signature is rejected was used by {how}: {ok}', {'text': t, 'how': how})
     ctx.count('tree:rejected-signature', n, n, dist={'refused': refused})
 
 
